@@ -62,12 +62,29 @@ class SimInterrupt(BaseException):
     """A BaseException subclass shaped like gevent.Timeout."""
 
 
+class XBase(Exception):
+    """Exception hierarchy used by the RetryingClient checks."""
+
+
+class XSubA(XBase):
+    pass
+
+
+class XSubB(XBase):
+    pass
+
+
+class XUnrelated(Exception):
+    pass
+
+
 _OBJ = {"Point": Point, "MyStr": MyStr, "MyInt": MyInt}
 
 _EXC = {
     "KeyboardInterrupt": KeyboardInterrupt,
     "SystemExit": SystemExit,
     "SimInterrupt": SimInterrupt,
+    "XBase": XBase, "XSubA": XSubA, "XSubB": XSubB, "XUnrelated": XUnrelated,
 }
 
 
@@ -166,6 +183,8 @@ def dec(j):
                 return decimal.Decimal(x)
             if k == "$exc":
                 return exc_class(x)
+            if k == "$cls":
+                return {"int": int, "str": str, "object": object}[x]
             if k == "$obj":
                 name, st = x
                 if name == "Point":
